@@ -190,14 +190,14 @@ func DecodeHintRecord(buf []byte) ([]byte, *DataPos) {
 func DecodeChunk(block []byte) ([]byte, ChunkType, error) {
 	// 剩余字节不足以容纳 chunk 头部
 	if len(block) < chunkHeaderSize {
-		return nil, 0, ErrInvalidCRC
+		return nil, 0, ErrIncompleteChunk
 	}
 	// length
 	length := binary.LittleEndian.Uint16(block[4:6])
 	start, end := chunkHeaderSize, chunkHeaderSize+uint32(length)
-	// 头部记录的长度超出实际可读范围, 数据必然已损坏
+	// 头部记录的长度超出实际可读范围
 	if end > uint32(len(block)) {
-		return nil, 0, ErrInvalidCRC
+		return nil, 0, ErrIncompleteChunk
 	}
 	checksum := crc32.ChecksumIEEE(block[4:end])
 	savedSum := binary.LittleEndian.Uint32(block[:4])
